@@ -85,6 +85,11 @@ IsDigits(s) == s # <<>> /\ \A i \in 1..Len(s) : s[i] \in Digits
 \* strconv.Atoi syntax (range is not modelled: drivers stay inside int64)
 AtoiSyntax(s) == IF s # <<>> /\ s[1] \in {PLUS, MINUS} THEN IsDigits(Tail(s)) ELSE IsDigits(s)
 
+LexLess(a, b) ==      \* bytewise string order (sort.Strings)
+  \E k \in 1..(Len(a) + 1) :
+     /\ \A i \in 1..(k - 1) : i <= Len(b) /\ a[i] = b[i]
+     /\ IF k = Len(a) + 1 THEN Len(b) > Len(a) ELSE (k <= Len(b) /\ a[k] < b[k])
+
 RECURSIVE StripZeros(_)
 StripZeros(d) == IF Len(d) > 1 /\ d[1] = 48 THEN StripZeros(Tail(d)) ELSE d
 
@@ -94,13 +99,17 @@ CanonInt(s) ==
       d   == StripZeros(IF s[1] \in {PLUS, MINUS} THEN Tail(s) ELSE s)
   IN IF neg /\ d # <<48>> THEN <<MINUS>> \o d ELSE d
 
-IsCanonInt(s) == AtoiSyntax(s) /\ CanonInt(s) = s
+\* strconv.Atoi on a 64-bit platform: the value must fit int64
+MaxInt64Text == <<57, 50, 50, 51, 51, 55, 50, 48, 51, 54, 56, 53, 52, 55, 55, 53, 56, 48, 55>>      \* 9223372036854775807
+MinInt64Abs  == <<57, 50, 50, 51, 51, 55, 50, 48, 51, 54, 56, 53, 52, 55, 55, 53, 56, 48, 56>>      \* 9223372036854775808
+InInt64(s) ==
+  LET neg == s[1] = MINUS
+      d   == StripZeros(IF s[1] \in {PLUS, MINUS} THEN Tail(s) ELSE s)
+      lim == IF neg THEN MinInt64Abs ELSE MaxInt64Text
+  IN Len(d) < 19 \/ (Len(d) = 19 /\ ~LexLess(lim, d))
+AtoiOK(s) == IF AtoiSyntax(s) THEN InInt64(s) ELSE FALSE
 
-
-LexLess(a, b) ==      \* bytewise string order (sort.Strings)
-  \E k \in 1..(Len(a) + 1) :
-     /\ \A i \in 1..(k - 1) : i <= Len(b) /\ a[i] = b[i]
-     /\ IF k = Len(a) + 1 THEN Len(b) > Len(a) ELSE (k <= Len(b) /\ a[k] < b[k])
+IsCanonInt(s) == AtoiOK(s) /\ CanonInt(s) = s
 
 
 ---------------------------------------------------------------------------
